@@ -56,17 +56,21 @@ class IdleHandshakeHandler(Elaboratable):
         ctrl_word = self.sink.ctrl
 
         # Capture the previous data word; so we have a record of eight consecutive signals.
-        last_word = Signal.like(data_word)
-        last_ctrl = Signal.like(ctrl_word)
-        m.d.ss += [
-            last_word.eq(data_word),
-            last_ctrl.eq(ctrl_word),
-        ]
+        # (Words that aren't valid don't carry symbols; so they neither count as idle nor separate two words.)
+        last_word       = Signal.like(data_word)
+        last_ctrl       = Signal.like(ctrl_word)
+        last_word_valid = Signal()
+        with m.If(self.sink.valid):
+            m.d.ss += [
+                last_word       .eq(data_word),
+                last_ctrl       .eq(ctrl_word),
+                last_word_valid .eq(1),
+            ]
 
         # Logical idle descrambles to the raw data value zero; so we only need to validate that
         # the last and current words are both zeroes.
-        last_word_was_idle   = (last_word == 0) & (last_ctrl == 0)
-        current_word_is_idle = (data_word == 0) & (ctrl_word == 0)
+        last_word_was_idle   = (last_word == 0) & (last_ctrl == 0) & last_word_valid
+        current_word_is_idle = (data_word == 0) & (ctrl_word == 0) & self.sink.valid
         m.d.comb += [
             self.idle_detected  .eq(last_word_was_idle & current_word_is_idle)
         ]
